@@ -37,6 +37,11 @@ CLAIMED = {
          "Per request: number of responses carrying its message id, response type, xid and branch id, status equal to what the manager returned, no success status when the manager failed or panicked, routing by branch type (recorded manager calls, one per request, right arguments), and independence from unrelated held requests; four batches override the SAGA slot, AT, TCC and XA managers in turn.",
          "The scripted manager replaces the real manager of its branch type in that child; requests of the other types go to the real managers with unknown resources (only addressing and count are judged for them).",
          "DESIGN.md §4 C15"),
+ "C01": ("exploration",
+         "runtime monitor: real AT proxy driver + TM + RM in client children against a MySQL-wire-protocol fake (ground-truth journal and snapshots) and the fake coordinator; model-free oracle snapshot(before) == snapshot(after rollback round)",
+         "Generated schemas (int / auto-increment / composite with key order != column order / varchar / 3-column keys, nullable columns, 16 column kinds) x initial rows x DML programs (1-3 branches, autocommit or explicit local transactions, INSERT single/multi-row, UPDATE, DELETE, upsert hit/miss, parameters or literals, 0/1/many rows) x undo configurations (serializer, compressor, validation, only-care-update-columns) x delivery (immediately / after unrelated committed transactions). After the coordinator's BranchRollback round the committed tables must equal the pre-transaction snapshot, no undo_log row of the xid may remain, and 'rollbacked' must be answered iff so.",
+         "MySQL is harness/minimysql (own conformance tests through the real go-sql-driver); InnoDB specifics are not modelled. A failed statement ends the business function (application-style error handling).",
+         "DESIGN.md §4 C01"),
 }
 
 NOT_YET = "check not implemented yet in this revision of the framework (work in progress; see DESIGN.md §4 for the planned monitor)"
